@@ -162,7 +162,9 @@ func runC48(c *core.Ctx) {
 		}
 		c.Check(ok && n > 0, "C48/decode-rejects", "hexPubkeyConverter.Decode", fn.Pos(), "returns hex.DecodeString(text) only when it has the configured length", "hex Decode can return bytes of another length or from another source")
 		mustPassChecked(c, fn, "C48/decode-rejects", "hexPubkeyConverter.Decode/hex-checked", nil,
-			func(in ssa.Instruction, cc *ssa.CallCommon) bool { return core.CallDesc(cc).Is("encoding/hex", "", "DecodeString") }, core.NilReturn, nil, "hex decoding succeeds (error checked) before bytes are returned")
+			func(in ssa.Instruction, cc *ssa.CallCommon) bool {
+				return core.CallDesc(cc).Is("encoding/hex", "", "DecodeString")
+			}, core.NilReturn, nil, "hex decoding succeeds (error checked) before bytes are returned")
 	}
 	c.Floor("C48/decode-rejects", 8)
 }
